@@ -335,6 +335,23 @@ def raw_sample_vars(prog, f):
     return out
 
 
+def _is_pruning(f, n):
+    """n sits in the condition of `if (..) break;` (no else)"""
+    cur = n
+    for _ in range(6):
+        par = f.parent(cur)
+        if par is None:
+            return False
+        if par["k"] == "If":
+            cnd, then, els = par["c"][-3], par["c"][-2], par["c"][-1]
+            in_cond = cnd is not None and any(z["i"] == n["i"] for z in walk(cnd))
+            is_break = then is not None and (then["k"] == "Break" or (then["k"] == "Block" and len([c for c in then["c"] if c]) == 1 and
+                                                                       [c for c in then["c"] if c][0]["k"] == "Break"))
+            return in_cond and is_break and els is None
+        cur = par
+    return False
+
+
 def consumers(prog, f, d, db, within):
     """rank reads / writes of data base `db` by variable d inside the statement tree `within`"""
     out = []
@@ -344,6 +361,8 @@ def consumers(prog, f, d, db, within):
         short = (n.get("callee") or "").split("::")[-1]
         if short in ACTIVE_CALLS:
             continue
+        if short == "getDistance1D" and _is_pruning(f, n):
+            continue        # `if (db->getDistance1D(j, i) > maxdist) break;` leaves a sorted enumeration: nothing of sample j is consumed
         o = call_obj(n)
         recv = "this" if (o is None or o["k"] == "This") else show(o)
         if recv != db:
